@@ -63,6 +63,12 @@ pub struct Fx<'a> {
     pub calls: BTreeSet<String>,
     /// functions of the crate that are called but not configured: translated on the fly, emitted before their user
     pub auto_helpers: BTreeSet<String>,
+    /// helper parsers being read in place (no recursion)
+    pub inlining: Vec<String>,
+    /// local variables bound to a closure (`let f = |x| ..;`), callable as `f(a)`
+    pub local_closures: HashSet<String>,
+    /// helper parsers that were read in place
+    pub inlined: BTreeSet<String>,
     pub mode: Mode,
     /// closures of the current function that are emitted as definitions of their own: (line, column) -> reference
     pub closure_refs: HashMap<(usize, usize), String>,
@@ -204,7 +210,7 @@ fn render(lines: &[Line]) -> String {
 
 impl<'a> Fx<'a> {
     pub fn new(krate: &'a Crate, self_ty: Option<String>) -> Self {
-        Fx { krate, self_ty, var_ty: HashMap::new(), display: None, sites: vec![], calls: BTreeSet::new(), auto_helpers: BTreeSet::new(), mode: Mode::Id, closure_refs: HashMap::new(), enclosing: String::new(), tmp: 0 }
+        Fx { krate, self_ty, var_ty: HashMap::new(), display: None, sites: vec![], calls: BTreeSet::new(), auto_helpers: BTreeSet::new(), inlining: vec![], local_closures: HashSet::new(), inlined: BTreeSet::new(), mode: Mode::Id, closure_refs: HashMap::new(), enclosing: String::new(), tmp: 0 }
     }
 
     fn site(&mut self, kind: &str, sp: proc_macro2::Span, text: String) {
@@ -444,6 +450,11 @@ impl<'a> Fx<'a> {
         self.enclosing = f.qual.clone();
         let doc = format!("/-- parser `{}` ({}:{}-{}) -/\n", f.qual, f.file, f.line, f.end_line);
         // statements other than `use` and nested functions?
+        for st in &f.block.stmts {
+            if let Stmt::Item(Item::Use(u)) = st {
+                self.check_local_use(u)?;
+            }
+        }
         let real: Vec<&Stmt> = f.block.stmts.iter().filter(|s| !matches!(s, Stmt::Item(_))).collect();
         if real.len() == 1 {
             if let Stmt::Expr(e, None) = real[0] {
@@ -513,6 +524,30 @@ impl<'a> Fx<'a> {
                     if let Some(f) = self.krate.fns.iter().find(|f| f.qual == q) {
                         if parser_output(&f.sig).is_some() {
                             self.calls.insert(q.clone());
+                            // a parser somebody extracted: if it is one combinator expression it is read in place (the
+                            // generated text is then what it was before the extraction); otherwise it is translated on
+                            // the fly, before its user
+                            if !config::ITEMS.iter().any(|i| matches!(i, config::Item::Parser { name } if *name == q.as_str())) {
+                                let real: Vec<&Stmt> = f.block.stmts.iter().filter(|s| !matches!(s, Stmt::Item(_))).collect();
+                                if real.len() == 1 && crate::tr::closures_of(&f.block).is_empty() && !self.inlining.contains(&q) {
+                                    if let Stmt::Expr(body, None) = real[0] {
+                                        check_block_attrs(&f.block)?;
+                                        for st in &f.block.stmts {
+                                            if let Stmt::Item(Item::Use(u)) = st {
+                                                self.check_local_use(u)?;
+                                            }
+                                        }
+                                        let saved = std::mem::replace(&mut self.enclosing, f.qual.clone());
+                                        self.inlining.push(q.clone());
+                                        let r = self.pexpr(body);
+                                        self.inlining.pop();
+                                        self.inlined.insert(q.clone());
+                                        self.enclosing = saved;
+                                        return r;
+                                    }
+                                }
+                                self.auto_helpers.insert(q.clone());
+                            }
                             return Ok(format!("Semver.Gen.{}", q.replace("::", "_")));
                         }
                     }
@@ -608,6 +643,18 @@ impl<'a> Fx<'a> {
                     _ => Err(format!("parser combinator `{}` with {} arguments is not modelled", joined, a.len())),
                 }
             }
+            // a closure used as a parser: `|input: &mut &str| { statements }`
+            Expr::Closure(c) if c.inputs.len() == 1 && closure_param_is_input(&c.inputs[0]) => {
+                let Expr::Block(b) = &*c.body else {
+                    return Err("a parser closure whose body is not a block".into());
+                };
+                let saved_mode = self.mode;
+                self.mode = Mode::Parser;
+                let lines = self.stmts(&b.block, 3, T::Ret);
+                self.mode = saved_mode;
+                let text = render(&lines?);
+                Ok(format!("(do\n{})", text.trim_end_matches('\n')))
+            }
             _ => Err(format!("unsupported parser expression `{}`", short(e))),
         }
     }
@@ -621,6 +668,20 @@ impl<'a> Fx<'a> {
         }
     }
 
+    /// a `use` inside a body may only bring the variants of one of the crate's enums (or of `Ordering`) into scope:
+    /// a renaming import (`use Predicate::{Including as Excluding}`) would change what the names in the body mean
+    fn check_local_use(&self, u: &ItemUse) -> R<()> {
+        if let UseTree::Path(p) = &u.tree {
+            if let UseTree::Glob(_) = &*p.tree {
+                let n = p.ident.to_string();
+                if n == "Ordering" || self.krate.enums.contains_key(n.as_str()) {
+                    return Ok(());
+                }
+            }
+        }
+        Err(format!("a `use` inside a body other than `Enum::*`: `{}`", u.to_token_stream()))
+    }
+
     // -------------------------------------------------------------------------------- statements
     fn stmts(&mut self, b: &Block, ind: usize, tail: T) -> R<Vec<Line>> {
         check_block_attrs(b)?;
@@ -629,7 +690,7 @@ impl<'a> Fx<'a> {
         for (i, s) in b.stmts.iter().enumerate() {
             let last = i + 1 == n;
             match s {
-                Stmt::Item(Item::Use(_)) => {}
+                Stmt::Item(Item::Use(u)) => self.check_local_use(u)?,
                 Stmt::Item(Item::Fn(_)) => {}
                 Stmt::Item(other) => return Err(format!("unsupported item in a body: `{}`", other.to_token_stream())),
                 Stmt::Local(l) => out.extend(self.local(l, ind)?),
@@ -655,8 +716,31 @@ impl<'a> Fx<'a> {
             p => (p, None),
         };
         let init = l.init.as_ref().ok_or("let without initialiser")?;
-        if init.diverge.is_some() {
-            return Err("let-else is not supported".into());
+        if let Some((_, div)) = &init.diverge {
+            // `let PAT = e else { diverge };`  is Lean's  `let PAT := e | diverge`
+            let alts = self.pat_alts(pat)?;
+            if alts.len() != 1 || pat_has_mut(pat) {
+                return Err("let-else with an or-pattern or `mut`".into());
+            }
+            if expr_needs_do(&init.expr) {
+                return Err("let-else on a value with control flow inside".into());
+            }
+            let v = self.expr(&init.expr)?;
+            let saved = self.display.take();
+            let inner = self.tail_stmt(div, ind + 4, T::No);
+            self.display = saved;
+            let inner = inner?;
+            let mut out = vec![Line { ind, text: format!("let {} := {}", alts[0], v) }];
+            let mut first = true;
+            for l in inner {
+                if first {
+                    out.push(Line { ind: ind + 2, text: format!("| {}", l.text) });
+                    first = false;
+                } else {
+                    out.push(l);
+                }
+            }
+            return Ok(out);
         }
         if let (Pat::Wild(_), Expr::Try(t)) = (pat, &*init.expr) {
             let m = self.monadic(&t.expr)?;
@@ -691,6 +775,21 @@ impl<'a> Fx<'a> {
         if self.mode == Mode::Parser && init.expr.to_token_stream().to_string().replace(' ', "") == "input.clone()" {
             return Ok(vec![Line { ind, text: format!("let {}{} ← Winnow.getInput", alts[0], ann_s) }]);
         }
+        if expr_needs_do(&init.expr) && matches!(&*init.expr, Expr::Match(_) | Expr::If(_)) && contains_return(&init.expr) {
+            // `let x ← match … with | p => return v | q => pure w`: the match is a do-element, so a `return` in an arm
+            // leaves the function, as in Rust
+            let saved = self.display.take();
+            let inner = self.tail_stmt(&init.expr, ind + 2, T::Val);
+            self.display = saved;
+            let inner = inner?;
+            let mut out = vec![];
+            let mut it = inner.into_iter();
+            if let Some(first) = it.next() {
+                out.push(Line { ind, text: format!("let {}{}{} ← {}", if mutable { "mut " } else { "" }, alts[0], ann_s, first.text) });
+            }
+            out.extend(it);
+            return Ok(out);
+        }
         if expr_needs_do(&init.expr) && matches!(&*init.expr, Expr::Match(_) | Expr::If(_) | Expr::Block(_)) {
             // the value of a block with statements inside: `let x ← <do block ending in pure v>`
             let mut out = vec![Line { ind, text: format!("let {}{}{} ← (do", if mutable { "mut " } else { "" }, alts[0], ann_s) }];
@@ -700,6 +799,11 @@ impl<'a> Fx<'a> {
             out.extend(inner?);
             out.push(Line { ind: ind + 2, text: ")".into() });
             return Ok(out);
+        }
+        if let (Pat::Ident(id), Expr::Closure(_)) = (pat, &*init.expr) {
+            if !mutable {
+                self.local_closures.insert(id.ident.to_string());
+            }
         }
         let mut pre = vec![];
         let v = self.value(&init.expr, ind, &mut pre)?;
@@ -914,6 +1018,11 @@ impl<'a> Fx<'a> {
             Expr::Macro(m) => self.macro_stmt(&m.mac, ind),
             Expr::Try(t) => match &*t.expr {
                 Expr::Macro(m) if mac_name(&m.mac) == "write" => self.macro_stmt(&m.mac, ind),
+                // `p.parse_next(input)?;` / `fallible(x)?;` as a statement: run it, drop the value
+                _ if self.mode != Mode::Id && self.display.is_none() => {
+                    let m = self.monadic(&t.expr)?;
+                    Ok(vec![Line { ind, text: format!("let _ ← {}", m) }])
+                }
                 _ => Err(format!("unsupported `?`: `{}`", short(e))),
             },
             Expr::Paren(p) => self.expr_stmt(&p.expr, ind),
@@ -1200,7 +1309,8 @@ impl<'a> Fx<'a> {
         let n = b.stmts.len();
         for (i, s) in b.stmts.iter().enumerate() {
             match s {
-                Stmt::Item(Item::Use(_)) | Stmt::Item(Item::Fn(_)) => {}
+                Stmt::Item(Item::Use(u)) => self.check_local_use(u)?,
+                Stmt::Item(Item::Fn(_)) => {}
                 Stmt::Local(l) => {
                     let lines = self.local(l, 0)?;
                     for ln in lines {
@@ -1425,6 +1535,10 @@ impl<'a> Fx<'a> {
                     return Err("closure with control flow or mutation".into());
                 }
                 let body = self.expr(&c.body)?;
+                if ps.is_empty() {
+                    // `|| e`: a thunk
+                    return Ok(format!("(fun (_ : Unit) => {})", body));
+                }
                 Ok(format!("(fun {} => {})", ps.join(" "), body))
             }
             Expr::Struct(s) => {
@@ -1570,6 +1684,10 @@ impl<'a> Fx<'a> {
         let last = segs.last().unwrap().clone();
         let joined = segs.join("::");
         let args = self.args(&c.args)?;
+        // a closure bound by `let` in this body
+        if segs.len() == 1 && self.local_closures.contains(&last) && !args.is_empty() {
+            return Ok(format!("({} {})", ident_name(&last), args.join(" ")));
+        }
         // std
         match joined.as_str() {
             "Some" => return Ok(format!("(some {})", args.join(" "))),
@@ -1740,6 +1858,27 @@ impl<'a> Fx<'a> {
             ("is_ascii_digit", 0) => format!("(Rust.is_ascii_digit {})", recv),
             ("map_err", 1) => format!("(Rust.map_err {} {})", recv, a),
             ("unwrap_or_else", 1) => format!("(Rust.unwrap_or_else {} {})", recv, a),
+            ("then_with", 1) => format!("(Rust.then_with {} {})", recv, a),
+            // `Ordering::then(o)` takes a value, `bool::then(|| v)` a closure; Lean's type checker rejects a wrong reading
+            ("then", 1) if matches!(&m.args[0], Expr::Closure(_)) => format!("(Rust.bool_then {} {})", recv, a),
+            ("then", 1) => format!("(Rust.ord_then {} {})", recv, a),
+            ("then_some", 1) => format!("(Rust.then_some {} {})", recv, a),
+            ("is_some_and", 1) => format!("(Rust.is_some_and {} {})", recv, a),
+            ("is_none_or", 1) => format!("(Rust.is_none_or {} {})", recv, a),
+            ("and_then", 1) => format!("(Rust.and_then {} {})", recv, a),
+            ("or", 1) => format!("(Rust.opt_or {} {})", recv, a),
+            ("or_else", 1) => format!("(Rust.or_else {} {})", recv, a),
+            ("map_or_else", 2) => format!("(Rust.map_or_else {} {})", recv, a),
+            ("flat_map", 1) => format!("(Rust.flat_map {} {})", recv, a),
+            ("find_map", 1) => format!("(Rust.find_map {} {})", recv, a),
+            ("last", 0) => format!("(Rust.last {})", recv),
+            ("count", 0) => format!("(Rust.iter_count {})", recv),
+            ("chain", 1) => format!("(Rust.chain {} {})", recv, a),
+            ("fold", 2) => format!("(Rust.fold {} {})", recv, a),
+            ("zip", 1) => format!("(Rust.zip {} {})", recv, a),
+            ("skip", 1) => format!("(Rust.skip {} {})", recv, a),
+            ("take", 1) => format!("(Rust.take {} {})", recv, a),
+            ("contains", 1) => format!("(Rust.contains {} {})", recv, a),
             _ => return Err(format!("method `{}` with {} arguments is not modelled", name, args.len())),
         };
         Ok(s)
@@ -1802,6 +1941,20 @@ fn check_block_attrs(b: &Block) -> R<()> {
     }
 }
 
+/// does the expression contain a `return` (outside closures), i.e. can it leave the enclosing function?
+fn contains_return(e: &Expr) -> bool {
+    struct V(bool);
+    impl<'ast> syn::visit::Visit<'ast> for V {
+        fn visit_expr_return(&mut self, _: &'ast ExprReturn) {
+            self.0 = true;
+        }
+        fn visit_expr_closure(&mut self, _: &'ast ExprClosure) {}
+    }
+    let mut v = V(false);
+    syn::visit::Visit::visit_expr(&mut v, e);
+    v.0
+}
+
 fn is_configured(ty: &str, name: &str) -> bool {
     config::ITEMS.iter().any(|i| match i {
         config::Item::Method { ty: t, tr, name: n } => *t == ty && tr.is_empty() && *n == name,
@@ -1825,6 +1978,14 @@ fn as_ptr_operand(e: &Expr) -> Option<&Expr> {
         }
     }
     None
+}
+
+fn closure_param_is_input(p: &Pat) -> bool {
+    let p = match p {
+        Pat::Type(pt) => &*pt.pat,
+        p => p,
+    };
+    matches!(p, Pat::Ident(id) if id.ident == "input")
 }
 
 fn is_input(e: &Expr) -> bool {
